@@ -28,6 +28,7 @@ EXPLANATION = (
     ' (BRACKET-MODE) wherever a parsing function moves a cursor known to stand on `(`, `[` or `{`, newline skipping is switched on before the next parsing call: derived for every bracket, not tabulated.'
     ' (ARROW parser arm) every arm over `Call(callee, args)` after `->` answers ArrowCall(value, callee, args), unguarded; (PARENS parser form tests) where the parser demands a form of a sub-expression it has just parsed, the test is made without the parentheses.'
     ' (TABLE Comment, shared with C17) every `//` up to the line break is a comment token, the empty comment included; (VISIT-dep, shared) a trailing expression and `ret` of it contribute the same dependencies.'
+    ' (BRACKET-MODE inspection) nothing looks at the token behind an opening bracket before newline skipping is on; (NEWLINE-MODE after the comma) runs of line breaks are passed over on both sides of the comma of a prime call.'
 )
 UNDECIDED = ("that every pair of surface variants parses to the same tree in all combinations (the prime-call argument loop ends at the "
              "first expression that fails to parse, which is layout dependent by design).")
